@@ -29,9 +29,78 @@ func (c06) Assumptions() []string {
 func (c06) NumCases(tier string) int      { return tierN(tier, 2500, 200000) }
 func (c06) MinNontrivial(tier string) int { return tierN(tier, 500, 5000) }
 
+// anonymous: embedded fields that carry their own tag (interface, pointer, named slice type) are by-type
+// points like any other.
+func (p c06) anonymous(c *core.Ctx) {
+	g := world.NewG(c.Rng)
+	ia := g.AddNode([]int{0, 1, 6, 8}[c.Rng.Intn(4)], g.FreshName(0)) // the only IA
+	var ibs []int
+	for x := 0; x < c.Rng.Intn(4); x++ {
+		ibs = append(ibs, g.AddNode([]int{2, 7, 13}[c.Rng.Intn(3)], g.FreshName(x+1))) // IBs that are no IAs
+	}
+	g.ShuffleOrders()
+	dep := &world.PlainDep{X: 7}
+	h := &world.AnonTagged{}
+	r := world.Start(g.Sc, world.Options{Extra: []any{h, dep}})
+	c.Count("starts", 1)
+	c.Count("anonymous_tagged_field_starts", 1)
+	detail := failDetail(g.Sc, r, nil)
+	if r.Outcome() != "ok" {
+		c.Fail("", "holder with tagged anonymous fields did not start: "+core.Short(r.OutcomeDetail(), 300), detail)
+		return
+	}
+	var bad []string
+	if h.IA != any(r.Nodes[ia]) {
+		bad = append(bad, fmt.Sprintf("embedded IA `wire:\"\"` holds %v, the only IA is %q", h.IA, g.Sc.Nodes[ia].DisplayName()))
+	}
+	if h.PlainDep != dep {
+		bad = append(bad, fmt.Sprintf("embedded *PlainDep `wire:\"\"` holds %p, the registered one is %p", h.PlainDep, dep))
+	}
+	seen := map[any]int{}
+	for _, b := range h.IBs {
+		seen[b]++
+	}
+	for _, i := range ibs {
+		if seen[any(r.Nodes[i])] != 1 {
+			bad = append(bad, fmt.Sprintf("embedded IBs `wire:\",required=false\"` contains %q %d time(s)", g.Sc.Nodes[i].DisplayName(), seen[any(r.Nodes[i])]))
+		}
+	}
+	if len(h.IBs) != len(ibs) {
+		bad = append(bad, fmt.Sprintf("embedded IBs has %d elements for %d IB components", len(h.IBs), len(ibs)))
+	}
+	if len(bad) > 0 {
+		c.Fail("", strings.Join(bad, "; "), detail)
+		return
+	}
+	c.Nontrivial("anonymous|" + g.Sc.GraphSig())
+}
+
 func (p c06) Run(c *core.Ctx) {
+	if c.Index%25 == 9 {
+		p.anonymous(c)
+		return
+	}
 	mix := TagMix{ByType: 3, Func: 1.2, POptional: 0.45}
 	g := RandomPopulation(c.Rng, PopOpts{MinP: 3, MaxP: 25, Types: world.TypesAll, PUnnamed: 0.35})
+	if c.Rng.Intn(3) == 0 {
+		// components whose registered NAME happens to be a method name the func tags ask for, of types that
+		// do not expose that method: a func point asks for methods, names are none of its business
+		used := map[string]bool{}
+		for i := range g.Sc.Nodes {
+			used[g.Sc.Nodes[i].DisplayName()] = true
+		}
+		for _, m := range []string{"Mark", "Kind", "Nosuch"} {
+			i := c.Rng.Intn(len(g.Sc.Nodes))
+			ti := world.Palette[g.Sc.Nodes[i].Type]
+			if g.Sc.Nodes[i].Name == "" || used[m] || (m == "Mark" && ti.Mark) || (m == "Kind" && ti.Kind) {
+				continue
+			}
+			delete(used, g.Sc.Nodes[i].Name)
+			g.Sc.Nodes[i].Name = m
+			used[m] = true
+			c.Count("components_named_like_a_requested_method", 1)
+		}
+	}
 	n := len(g.Sc.Nodes)
 	consumers := 1 + c.Rng.Intn(4)
 	for x := 0; x < consumers; x++ {
